@@ -267,6 +267,10 @@ fn cv_section(pc: &PcRead, layout: &Layout, r: &mut Rng, stats: &mut LayoutStats
         }
         packets.push(pk);
     }
+    if packets.is_empty() && !points.is_empty() {
+        // every record has zero width: one data packet whose streams are all empty
+        packets.push((0..n).map(|_| (0usize, 0usize)).collect());
+    }
     // statistics about the packetisation
     let complete = |c: &[usize]| -> usize {
         (0..n).filter(|i| widths[*i] > 0).map(|i| c[i] * 8 / widths[i]).min().unwrap_or(0).min(points.len())
